@@ -2,8 +2,11 @@
 """Print the prompt handed to a mutation sub-agent for property <id>. Contains only the property text."""
 import json,sys
 pid=sys.argv[1]
+round2=len(sys.argv)>2
+avoid=sys.argv[2] if round2 else ""
+suffix="b" if round2 else ""
 p=[json.loads(l) for l in open('/verif/properties.jsonl') if json.loads(l)['id']==pid][0]
-wt=f"/tmp/wt/{pid}"
+wt=f"/tmp/wt/{pid}{suffix}"
 print(f"""You are helping test a verification effort for the Go repository polynetwork/poly (a cross-chain relay-chain node). You have your OWN scratch git worktree of it at {wt} (a checkout of the pinned commit). Work ONLY inside {wt}. Never touch /repo or /verif, and do not read anything under /verif.
 
 Here is a semantic property the code base is supposed to satisfy:
@@ -28,4 +31,6 @@ Environment: no network. Always run go with: `export GOFLAGS=-mod=mod GOPROXY=of
 When done, leave in {wt}:
   - the source change applied in the working tree (uncommitted),
   - {wt}/MUTATION.md describing: which file/function you changed and why it breaks the property, what is needed for the breakage to manifest, the exact commands you ran (build, existing tests, demo with and without the change) and their outcomes.
-Then reply with a short summary (the changed file(s), one-paragraph description, demo file path, and whether the demo fails-with/passes-without). Do not produce more than one mutation.""")
+""" + (f"""
+IMPORTANT: an earlier volunteer already produced this change for the same property: "{avoid}". Produce something DIFFERENT: another function, another clause of the property statement, or another kind of slip (do not touch the same lines).
+""" if round2 else "") + f"""Then reply with a short summary (the changed file(s), one-paragraph description, demo file path, and whether the demo fails-with/passes-without). Do not produce more than one mutation.""")
